@@ -97,6 +97,14 @@ class Layouts:
             return self.state[node.id]
         if isinstance(node, ast.Attribute) and str(U(node)) in self.state:
             return self.state[str(U(node))]
+        if isinstance(node, (ast.ListComp, ast.GeneratorExp)) and len(node.generators) == 2 \
+                and not node.generators[0].ifs and not node.generators[1].ifs:
+            # [e for a in A for b in B(a)]  =  concatenation over A of [e for b in B(a)]
+            g1, g2 = node.generators
+            it, e2 = self._bind_iter(g1.iter, g1.target, [g2.iter, node.elt], at, env, depth)
+            inner = ast.ListComp(elt=node.elt, generators=[g2])
+            sub = self.layout_of(inner, at, e2, depth + 1)
+            return UNKNOWN if sub is UNKNOWN else (("flat", it, sub),)
         if isinstance(node, (ast.ListComp, ast.GeneratorExp)) and len(node.generators) == 1 and not node.generators[0].ifs:
             g = node.generators[0]
             if self._is_effect(node.elt):
@@ -114,6 +122,20 @@ class Layouts:
             f = str(U(node.func))
             if f in ("list", "tuple", "copy", "deepcopy") and len(node.args) == 1:
                 return self.layout_of(node.args[0], at, env, depth)
+            if f in ("concatenate", "hstack") and len(node.args) == 1:
+                inner = self.layout_of(node.args[0], at, env, depth)
+                if inner is UNKNOWN:
+                    return UNKNOWN
+                out = ()
+                for p_ in inner:
+                    if p_[0] == "each":
+                        # the element text was written at this depth; as the body of a flat part it lives one level down
+                        out += (("flat", p_[1], (("splice", p_[2]),)),)
+                    elif p_[0] == "item":
+                        out += (("splice", p_[1]),)
+                    else:
+                        return (("splice", self.text(node, at, env)),)
+                return out
             if f == "chain" and len(node.args) == 1 and isinstance(node.args[0], ast.Starred):
                 inner = node.args[0].value
                 if isinstance(inner, (ast.ListComp, ast.GeneratorExp)) and len(inner.generators) == 1 and not inner.generators[0].ifs:
@@ -157,8 +179,9 @@ class Layouts:
             return lay
         out = []
         for p_ in lay:
-            if p_[0] == "each" and p_[1][0] == "iter" and p_[2] == lv(depth, 0):
-                out.append(("splice", p_[1][1]))       # identity comprehension
+            if p_[0] == "each" and p_[1][0] == "iter" and (p_[2] == lv(depth, 0) or (
+                    p_[1][1].startswith("zip(") and p_[2] in (f"({lv(depth, 0)}, {lv(depth, 1)})", f"({lv(depth, 0)}, {lv(depth, 1)}, {lv(depth, 2)})"))):
+                out.append(("splice", p_[1][1]))       # identity comprehension (also the tuple re-packing of a zip)
             else:
                 out.append(p_)
         return tuple(out)
